@@ -218,18 +218,22 @@ func c16SameMap(a, b map[int]int) bool {
 
 // oracle: granted evictions within the caps, reported counters == granted evictions
 func c16CheckCaps(h *vHarness, who string, tl *c16Tally, capNode, capNs, capTotal int) {
+	c16CheckCapsFp(h, "C16:"+who+"-cap-exceeded", tl, capNode, capNs, capTotal)
+}
+
+func c16CheckCapsFp(h *vHarness, fp string, tl *c16Tally, capNode, capNs, capTotal int) {
 	for k, v := range tl.node {
 		if capNode >= 0 && v > capNode {
-			h.Fail("C16:"+who+"-cap-exceeded", "node %d: %d evictions issued, cap %d", k, v, capNode)
+			h.Fail(fp, "node %d: %d evictions issued, cap %d", k, v, capNode)
 		}
 	}
 	for k, v := range tl.ns {
 		if capNs >= 0 && v > capNs {
-			h.Fail("C16:"+who+"-cap-exceeded", "namespace %d: %d evictions issued, cap %d", k, v, capNs)
+			h.Fail(fp, "namespace %d: %d evictions issued, cap %d", k, v, capNs)
 		}
 	}
 	if capTotal >= 0 && tl.total > capTotal {
-		h.Fail("C16:"+who+"-cap-exceeded", "total: %d evictions issued, cap %d", tl.total, capTotal)
+		h.Fail(fp, "total: %d evictions issued, cap %d", tl.total, capTotal)
 	}
 }
 
